@@ -232,6 +232,21 @@ def fork_env(env):
     return {k: cp(v) for k, v in env.items()}
 
 
+def _is_sequence_value(v):
+    """sequence in the sense of structural pattern matching (tuple/list-like, not a string): True / False / None"""
+    if isinstance(v, TupleV):
+        return v.kind in ("tuple", "list")
+    if isinstance(v, (Const, DictV, ObjV, FuncV, ClassRef, SliceV)):
+        return False
+    if isinstance(v, Form):
+        if v.const_value() is not None:
+            return False
+        a = v.single_atom()
+        if a is not None and ((a[0] == "sym" and a[1].endswith(".shape")) or (a[0] == "fn" and a[1] == "shape") or (a[0] == "attr" and a[2] == "shape")):
+            return True          # the shape of an array is a tuple
+    return None
+
+
 def _lead_dim(v):
     """leading dimension of an array-valued form when it is a literal: k*randn(4, N) -> 4"""
     if not isinstance(v, Form) or len(v.terms) != 1:
@@ -1118,6 +1133,9 @@ class Interp:
                     if fn == "all":
                         return False if any(v_ is False for v_ in vals) else (True if all(v_ is True for v_ in vals) else None)
                     return True if any(v_ is True for v_ in vals) else (False if all(v_ is False for v_ in vals) else None)
+            if fn == "__is_sequence__" and len(test.args) == 1:
+                v = self.eval(test.args[0], st, fi, depth)
+                return _is_sequence_value(v)
             if fn == "callable" and len(test.args) == 1:
                 v = self.eval(test.args[0], st, fi, depth)
                 if isinstance(v, FuncV):
@@ -2502,6 +2520,12 @@ class Interp:
         return Form.atom(("meth", as_value(base), attr, tuple(map(as_value, args)), tuple(sorted((k, as_value(v)) for k, v in kwargs.items()))))
 
     def _builtin(self, name, args, kwargs, st, fi, depth, n):
+        if name == "len" and len(args) == 1 and isinstance(args[0], Form):
+            a0 = args[0].single_atom()
+            if a0 is not None and a0[0] == "sym" and a0[1].endswith(".shape"):
+                return Form.sym(a0[1][:-len("shape")] + "ndim")          # len(x.shape) is x.ndim
+            if a0 is not None and a0[0] == "attr" and a0[2] == "shape":
+                return self.getattr(a0[1], "ndim", st, fi, n)
         if name == "dict" and len(args) <= 1 and "**" not in kwargs:
             pairs = []
             if args:
